@@ -24,7 +24,7 @@ pub(crate) struct Justfile<'src> {
   pub(crate) recipes: Table<'src, Rc<Recipe<'src>>>,
   pub(crate) settings: Settings<'src>,
   pub(crate) source: PathBuf,
-  pub(crate) unexports: HashSet<String>,
+  pub(crate) unexports: BTreeSet<String>,
   #[serde(skip)]
   pub(crate) unstable_features: BTreeSet<UnstableFeature>,
   pub(crate) warnings: Vec<Warning>,
